@@ -225,7 +225,38 @@ def describe_steps(steps):
     return out
 
 
-async def _pump(rx, senders, names, rows, exact, pre_rows=None, needs=None, stall=None, three=False):
+def tz_of(spec):
+    """"utc" | ["off", minutes] | ["zi", "Europe/Berlin"] -> tzinfo"""
+    if spec == "utc":
+        return timezone.utc
+    if spec[0] == "off":
+        return timezone(timedelta(minutes=spec[1]))
+    import zoneinfo
+    return zoneinfo.ZoneInfo(spec[1])
+
+
+ZONES = ["utc", "utc", ["off", 330], ["off", -480], ["off", 60], ["zi", "Europe/Berlin"], ["zi", "America/New_York"], ["zi", "Asia/Kolkata"]]
+
+
+def describe_by_identity(eng, tokens, ident):
+    """steps / fetchers of a composed engine with every fetch step named after the IDENTITY of the operand
+    engine it stands for (the i-th fetch step belongs to the i-th engine token of the builder), not after
+    the name the implementation gave the fetcher"""
+    fe, fs = imp()["fe"], imp()["fs"]
+    operands = [v for t, v in tokens if t.name == "COMPONENT_METRIC"]
+    steps = describe_steps(eng._builder._steps)  # pylint: disable=protected-access
+    owner, i = {}, 0
+    for st, d in zip(eng._builder._steps, steps):  # pylint: disable=protected-access
+        if isinstance(st, fs.MetricFetcher):
+            who = f"e{ident(operands[i])}" if i < len(operands) else "e999999"
+            owner.setdefault(id(st), who)
+            d[1] = who
+            i += 1
+    fetch = [[owner.get(id(f), "e999999"), bool(f._nones_are_zeros)] for f in eng._builder._metric_fetchers.values()]  # pylint: disable=protected-access
+    return steps, fetch
+
+
+async def _pump(rx, senders, names, rows, exact, pre_rows=None, needs=None, stall=None, three=False, zones=None, on_row=None):
     """send one sample per stream per row (lock-step, same timestamp), collect what the engine(s) emit.
 
     rx: one receiver or a list of receivers (then a list of outputs is returned).
@@ -243,6 +274,8 @@ async def _pump(rx, senders, names, rows, exact, pre_rows=None, needs=None, stal
             [(k, row, names) for k, row in enumerate(rows)]
     for k, row, who in sched:
         ts = E0 + timedelta(seconds=k)
+        if on_row is not None and k >= 0:
+            await on_row(k)
         if stall and backlog and not stall[1] <= k < stall[1] + stall[2]:
             for bts, bv in backlog:
                 await senders[stall[0]].send(Sample(bts, None if bv is None else mk(bv)))
@@ -254,7 +287,8 @@ async def _pump(rx, senders, names, rows, exact, pre_rows=None, needs=None, stal
             if stall and name == stall[0] and stall[1] <= k < stall[1] + stall[2]:
                 backlog.append((ts, v))
                 continue
-            await senders[name].send(Sample(ts, None if v is None else mk(v)))
+            # the same instant, written in the stream's own time zone
+            await senders[name].send(Sample(ts.astimezone(tz_of((zones or {}).get(name, "utc"))), None if v is None else mk(v)))
         last = k == sched[-1][0]
         if stall and last and backlog:
             await asyncio.sleep(10)
@@ -390,7 +424,7 @@ def build_hb(t, engines, exact, memo=None, perturb=False, pre=None, built=None, 
         _ = res + res
     for name, nz in (pre or {}).get(key, []):
         # an engine is built from this builder NOW; the builder is used further afterwards
-        built.append((t, bool(nz), res.build(name, nones_are_zeros=bool(nz))))
+        built.append((t, bool(nz), res.build(name, nones_are_zeros=bool(nz)), list(res._steps)))  # pylint: disable=protected-access
     if memo is not None:
         memo[key] = res
     return res
@@ -433,37 +467,67 @@ async def _run_ho(case, exact):
     """Builds the tree through the operator API.  Besides the main engine (name "f", case["nz"], built
     LAST) further engines are built: from sub-builders right after they were made (case["pre"]: the
     builder is then extended / combined / built again) and from the final builder (case["finals"]:
-    same or other name, same or other flag).  Every engine must compute ITS expression."""
+    same or other name, same or other flag).  Every engine must compute ITS expression.
+    case["names"]: names given to the operand engines (different engines may get EQUAL names);
+    case["zones"]: the time zone each input stream writes its (identical) instants in;
+    case["stop"] = [[i, k], ...]: engine #i is stopped (and dropped, builders garbage-collected) before
+    row k; the other engines, which share its input engines, are judged to the end."""
+    import gc
     I = imp()
     fe = I["fe"]
     names = sorted({k for r in case["rows"] for k in r} | {str(n) for n in hb_names(case["tree"])})
     chans = {n: I["Broadcast"](name=f"c{n}") for n in names}
-    engines = {int(n): fe.FormulaEngine.from_receiver(f"e{n}", chans[n].new_receiver(), mk,
+    labels = case.get("names", {})
+    engines = {int(n): fe.FormulaEngine.from_receiver(labels.get(n, f"e{n}"), chans[n].new_receiver(), mk,
                                                       nones_are_zeros=bool(case.get("src_nz", {}).get(n, False)))
                for n in names}
+    ident = lambda obj: next((n for n, e in engines.items() if e is obj), 999999)
     pre = {}
     for node, name, nz in case.get("pre", []):
         pre.setdefault(json.dumps(node), []).append([name, nz])
     built = []
     memo = {} if (case.get("share") or pre) else None
     builder = build_hb(case["tree"], engines, exact, memo, bool(case.get("perturb")), pre, built)
-    tokens = [[t.name, (v._name if isinstance(v, fe.FormulaEngine) else (v if isinstance(v, str) else out_enc(v.base_value if hasattr(v, "base_value") else v)))]  # pylint: disable=protected-access
+    tokens = [[t.name, (f"e{ident(v)}" if isinstance(v, fe.FormulaEngine) else (v if isinstance(v, str) else out_enc(v.base_value if hasattr(v, "base_value") else v)))]
               for t, v in builder._steps]  # pylint: disable=protected-access
     for name, nz in case.get("finals", []):
-        built.append((case["tree"], bool(nz), builder.build(name, nones_are_zeros=bool(nz))))
-    built.append((case["tree"], bool(case["nz"]), builder.build("f", nones_are_zeros=case["nz"])))
+        built.append((case["tree"], bool(nz), builder.build(name, nones_are_zeros=bool(nz)), list(builder._steps)))  # pylint: disable=protected-access
+    built.append((case["tree"], bool(case["nz"]), builder.build("f", nones_are_zeros=case["nz"]), list(builder._steps)))  # pylint: disable=protected-access
     descr = []
-    for tree, nz, eng in built:
-        descr.append({"tree": tree, "nz": nz, "steps": describe_steps(eng._builder._steps),  # pylint: disable=protected-access
-                      "fetchers": [[k, bool(f._nones_are_zeros)] for k, f in eng._builder._metric_fetchers.items()]})  # pylint: disable=protected-access
-    rxs = [eng.new_receiver() for _, _, eng in built]
+    for tree, nz, eng, toks in built:
+        steps, fetch = describe_by_identity(eng, toks, ident)
+        descr.append({"tree": tree, "nz": nz, "steps": steps, "fetchers": fetch})
+    del builder
+    if memo is not None:
+        memo.clear()
+    live = [eng for _, _, eng, _ in built]
+    built = None
+    rxs = [eng.new_receiver() for eng in live]
     senders = {n: chans[n].new_sender() for n in names}
     await asyncio.sleep(0)
     needs = [{k.lstrip("e") for k, _ in d["fetchers"]} for d in descr]
-    outs = await _pump(rxs, senders, names, case["rows"], exact, case.get("pre_rows"), needs, case.get("stall"))
+    stops = {}
+    for i, k in case.get("stop", []):
+        if 0 <= i < len(live) - 1 and 0 < k < len(case["rows"]):
+            stops.setdefault(k, []).append(i)
+    stopped = []
+
+    async def on_row(k):
+        for i in stops.get(k, []):
+            if live[i] is not None:
+                await live[i]._stop()  # pylint: disable=protected-access
+                stopped.append(live[i])
+                live[i] = None
+                descr[i]["stopped_at"] = k
+        if k in stops:
+            stopped.clear()
+            gc.collect()
+
+    outs = await _pump(rxs, senders, names, case["rows"], exact, case.get("pre_rows"), needs, case.get("stall"),
+                       False, case.get("zones"), on_row if stops else None)
     for d, o in zip(descr, outs):
-        d["out"] = o
-    await _cleanup([e for _, _, e in built] + list(engines.values()))
+        d["out"] = o[:d["stopped_at"]] if "stopped_at" in d else o
+    await _cleanup([e for e in live if e is not None] + list(engines.values()))
     main = descr[-1]
     return {"steps": main["steps"], "fetchers": main["fetchers"], "out": main["out"], "tokens": tokens, "builds": descr}
 
@@ -651,7 +715,17 @@ async def _run_pool(case, exact):
         descr.append({"same_as": first, "steps": describe_steps(eng._builder._steps),  # pylint: disable=protected-access
                       "fetchers": [[k, bool(f._nones_are_zeros)] for k, f in eng._builder._metric_fetchers.items()],  # pylint: disable=protected-access
                       "metric_of_engine": eng._builder._metric_id.name})  # pylint: disable=protected-access
-    rxs = [e.new_receiver() for e in engines]
+    # formulas composed from the engines the pool handed out: [i, op, j] = request i <op> request j
+    first_of = lambda obj: next((i for i, e in enumerate(engines) if e is obj), 999999)
+    comp_engines, comp_descr = [], []
+    for i, op, j in case.get("compose", []):
+        a, b = engines[i], engines[j]
+        bld = a + b if op == "+" else a - b if op == "-" else a * b if op == "*" else a / b if op == "/" else a.max(b) if op == "max" else a.min(b)
+        ce = bld.build(f"composed{len(comp_engines)}")
+        steps, fetch = describe_by_identity(ce, list(bld._steps), first_of)  # pylint: disable=protected-access
+        comp_engines.append(ce)
+        comp_descr.append({"i": first_of(a), "op": op, "j": first_of(b), "steps": steps, "fetchers": fetch})
+    rxs = [e.new_receiver() for e in engines] + [e.new_receiver() for e in comp_engines]
     names = sorted({k for r in case["rows"] for k in r})
     senders = {}
     for nme in names:
@@ -660,15 +734,17 @@ async def _run_pool(case, exact):
         chan = reg.get_or_create(I["Sample"][I["Quantity"]], I["CMR"]("ns", int(cid), metric, None).get_channel_name())
         senders[nme] = chan.new_sender()
     needs = [{f"{POOL_METRICS.index(d['metric_of_engine']) if d['metric_of_engine'] in POOL_METRICS else 99}:{k.lstrip('#')}" for k, _ in d["fetchers"]} for d in descr]
+    for cd in comp_descr:
+        needs.append(needs[cd["i"]] | needs[cd["j"]])
     outs = await _pump(rxs, senders, names, case["rows"], exact, None, needs)
-    for d, o in zip(descr, outs):
+    for d, o in zip(descr + comp_descr, outs):
         d["out"] = o
-    distinct = []
+    distinct = list(comp_engines)
     for e in engines:
         if not any(e is x for x in distinct):
             distinct.append(e)
     await _cleanup(distinct)
-    return {"requests": descr}
+    return {"requests": descr, "composed": comp_descr}
 
 
 def pool_first_flag(case, i):
@@ -700,7 +776,29 @@ def term_pool(case, obs):
         else:
             prog = c_prog(d)
         reqs.append(f"({cs}, {name}, {cbool(nz)}, {prog}, {rows})")
-    return "[" + "; ".join(reqs) + "]"
+    comps = []
+    for cd in obs.get("composed", []):
+        # the composed engine reads what the request engines emitted
+        tree = ["e", ["s", cd["i"]], cd["op"], cd["j"]]
+        sub_rows = []
+        ok = True
+        for k in range(len(case["rows"])):
+            row = {}
+            for n in {cd["i"], cd["j"]}:
+                o = obs["requests"][n]["out"][k] if k < len(obs["requests"][n]["out"]) else "dropped"
+                if o is None:
+                    row[str(n)] = "none"
+                elif isinstance(o, list) and len(o) == 2 and isinstance(o[0], int):
+                    row[str(n)] = o
+                else:
+                    ok = False
+            sub_rows.append(row)
+        rows = c_rows({"rows": sub_rows}, cd) if ok else None
+        if rows is None:
+            comps.append(f"({c_hb(tree)}, false, [], ([SOpen; SOpen; SOpen], []), [])")
+        else:
+            comps.append(f"({c_hb(tree)}, false, [], {c_prog(cd)}, {rows})")
+    return "([" + "; ".join(reqs) + "], [" + "; ".join(comps) + "])"
 
 
 def gen_pool_case(rng):
@@ -724,7 +822,23 @@ def gen_pool_case(rng):
     for _ in range(rng.randint(2, 4)):
         pm = rng.choice([0.0, 0.0, 0.2])
         rows.append({n: gen_value(rng, pm) if rng.random() < 0.5 else rng.randint(-50, 50) * (int(n.split(":")[0]) + 2) + int(n.split(":")[1]) for n in names})
-    return {"kind": "pool", "requests": reqs, "rows": rows}
+    case = {"kind": "pool", "requests": reqs, "rows": rows}
+    if rng.random() < 0.5 and len(reqs) > 1:
+        case["compose"] = [[rng.randrange(len(reqs)), rng.choice(HOPS), rng.randrange(len(reqs))] for _ in range(rng.randint(1, 3))]
+    return case
+
+
+def gen_pool_long_case(rng):
+    """LONG formula strings (> 40 characters) with a long common prefix, started on one pool and composed"""
+    ids = [1, 2, 3]
+    prefix = gen_chain(rng, ids, rng.randint(9, 12))
+    forms = [["b", rng.choice(["+", "-"]), prefix, ["v", i]] for i in rng.sample(ids, 2)] + [["b", "*", ["p", prefix], ["v", rng.choice(ids)]]]
+    metrics = rng.sample(range(len(POOL_METRICS)), 2)
+    reqs = [[forms[0], metrics[0], False], [forms[1], metrics[0], False], [forms[0], metrics[1], False], [forms[2], metrics[0], rng.random() < 0.5]]
+    names = sorted({f"{m}:{i}" for a, m, _ in reqs for i in ast_vars(a)})
+    rows = [{n: rng.randint(-9, 9) * (int(n.split(":")[0]) + 2) + int(n.split(":")[1]) for n in names} for _ in range(2)]
+    return {"kind": "pool", "requests": reqs, "rows": rows,
+            "compose": [[0, "-", 1], [0, rng.choice(HOPS), 2], [rng.randrange(4), rng.choice(HOPS), rng.randrange(4)]]}
 
 
 def gen_stall(rng, names, nrows):
@@ -752,6 +866,8 @@ def run_both(case):
         for b, fb in zip(obs.get("builds", []), fl.get("builds", [])):
             b["float_out"] = fb.get("out")
         for b, fb in zip(obs.get("requests", []), fl.get("requests", [])):
+            b["float_out"] = fb.get("out")
+        for b, fb in zip(obs.get("composed", []), fl.get("composed", [])):
             b["float_out"] = fb.get("out")
         for b, fb in zip(obs.get("phases", []), fl.get("phases", [])):
             b["float_out"] = fb.get("out")
@@ -1164,8 +1280,12 @@ Fixpoint forall2b {A B} (f : A -> B -> bool) (a : list A) (b : list B) : bool :=
   | x :: xs, y :: ys => f x y && forall2b f xs ys
   | _, _ => false
   end.
-Definition check_pool (c : list (list N * list N * bool * (list step * list (N * bool))
-                                 * list (list (N * inp) * outcome))) : bool :=
+Definition check_pool (cc : list (list N * list N * bool * (list step * list (N * bool))
+                                  * list (list (N * inp) * outcome))
+                            * list (hb * bool * list (N * bool) * (list step * list (N * bool))
+                                    * list (list (N * inp) * outcome))) : bool :=
+  let c := fst cc in
+  forallb check_ho (snd cc) &&
   let engines := pool_requests (map (fun r => let '(f, m, nz, _, _) := r in (f, m, nz)) c) in
   forall2b (fun r e => let '(_, m, _, ep, rows) := r in
               list_eqb N.eqb (pe_metric e) m &&
@@ -1207,7 +1327,7 @@ def term_ho(case, obs):
     src = "[" + "; ".join(f"({c_N(k)}, {cbool(z)})" for k, z in sorted(case.get("src_nz", {}).items(), key=lambda kv: int(kv[0]))) + "]"
     out = []
     for b in obs.get("builds") or [{"tree": case["tree"], "nz": case["nz"], **obs}]:
-        rows = c_rows(case, b)
+        rows = c_rows({"rows": case["rows"][:b["stopped_at"]]} if "stopped_at" in b else case, b)
         if rows is None:
             out.append(f"({c_hb(b['tree'])}, {cbool(b['nz'])}, {src}, ([SOpen; SOpen; SOpen], []), [])")
         else:
@@ -1341,6 +1461,14 @@ def gen_ho_case(rng):
         pick = lambda: [rng.choice(["f", "f", "g"]), nz if rng.random() < 0.6 else not nz]
         extra["pre"] = [[json.loads(json.dumps(rng.choice(subs)))] + pick() for _ in range(rng.randint(0, 2))]
         extra["finals"] = [pick() for _ in range(rng.randint(0 if extra["pre"] else 1, 2))]
+    if rng.random() < 0.15 and len(names) > 1:      # different operand engines with EQUAL names
+        lab = rng.choice(["power", "e0"])
+        extra["names"] = {str(n): lab for n in rng.sample(names, rng.randint(2, len(names)))}
+    if rng.random() < 0.2:                          # the same instants written in different time zones
+        extra["zones"] = {str(n): rng.choice(ZONES) for n in names}
+    if rng.random() < 0.15:                         # several engines sharing the input engines, some stopped mid-run
+        extra.setdefault("finals", []).append(["g", nz])
+        extra["stop"] = [[rng.randint(0, 2), rng.randint(1, 2)] for _ in range(rng.randint(1, 2))]
     return {"kind": "ho", "tree": tree, "nz": nz, "share": share, "perturb": rng.random() < 0.3, **extra,
             "rows": gen_rows(rng, names, rng.randint(2, 4), rng.choice([0.0, 0.15, 0.3]))}
 
@@ -1520,9 +1648,13 @@ def shrink_case(case):
                 yield fix_rows({**case, "tree": t}, [f"{n}:{ph}" for n in sorted(hb_names(t)) for ph in range(3)])
     elif case["kind"] == "pool":
         r = case["requests"]
+        cm = case.get("compose", [])
+        for i in range(len(cm)):
+            yield {**case, "compose": cm[:i] + cm[i + 1:]}
         for i in range(len(r)):
-            if len(r) > 1:
-                yield {**case, "requests": r[:i] + r[i + 1:]}
+            if len(r) > 1 and not any(i in (c[0], c[2]) for c in cm):
+                yield {**case, "requests": r[:i] + r[i + 1:],
+                       "compose": [[a - (a > i), op, b - (b > i)] for a, op, b in cm]}
         for i, (a, m, nz) in enumerate(r):
             for a2 in shrink_ast(a):
                 if ast_vars(a2):
@@ -1535,7 +1667,7 @@ def shrink_case(case):
         c = case["calls"]
         for i in range(len(c)):
             yield {**case, "calls": c[:i] + c[i + 1:]}
-    for fld in ("pre", "finals", "pre_rows"):
+    for fld in ("pre", "finals", "pre_rows", "stop"):
         lst = case.get(fld) or []
         for i in range(len(lst)):
             yield {**case, fld: lst[:i] + lst[i + 1:]}
